@@ -340,3 +340,14 @@ M("C19", "shared-macro-table-passed-down", CG, "    macro_definitions: MacroDefi
          (CG, "def code_gen(ast_nodes: list[AstNode], resolver: Resolver) -> GenNodes:", "_SHARED: MacroDefinitions = {}\n\n\ndef code_gen(ast_nodes: list[AstNode], resolver: Resolver) -> GenNodes:")])
 M("C16", "revert-space-before-closing-bracket", SST, "    if s.accept(\",\"):\n        lex_opcode_index(s)\n        s.ignore_run(\" \")\n\n    p = s.peek()\n\n    if p == \")\":", "    if s.accept(\",\"):\n        lex_opcode_index(s)\n\n    p = s.peek()\n\n    if p == \")\":", "C16.R2")
 M("C16", "revert-mnemonic-then-semicolon", SST, "        \".\",\n        \";\",\n        EOF,\n    ):", "        \".\",\n        EOF,\n    ):", "C16.R2")
+# ------------------------------------------------------------------ process-lifetime results (shared rule RM, caches.py)
+M("C06", "memo-pure-eval-number-neutral", EXPRF, "import ctypes\n", "import ctypes\nimport functools\n", neutral=True,
+  edits=[(EXPRF, "import ctypes\n", "import ctypes\nimport functools\n"), (EXPRF, "def eval_number(number: str) -> int:", "@functools.lru_cache(maxsize=None)\ndef eval_number(number: str) -> int:")])
+M("C19", "memo-pure-eval-number-neutral", EXPRF, "import ctypes\n", "import ctypes\nimport functools\n", neutral=True,
+  edits=[(EXPRF, "import ctypes\n", "import ctypes\nimport functools\n"), (EXPRF, "def eval_number(number: str) -> int:", "@functools.lru_cache(maxsize=None)\ndef eval_number(number: str) -> int:")])
+M("C06", "memo-operator-precedence-coarse-key", EXPRF, "def operator_precedence(expr: ExprNode) -> int:", "@functools.lru_cache(maxsize=256)\ndef operator_precedence(expr: ExprNode) -> int:", "C06.RM",
+  edits=[(EXPRF, "import ctypes\n", "import ctypes\nimport functools\n"), (EXPRF, "def operator_precedence(expr: ExprNode) -> int:", "@functools.lru_cache(maxsize=256)\ndef operator_precedence(expr: ExprNode) -> int:"),
+         (ASTN, "        return self.token == other.token\n", "        return self.token == other.token\n\n    def __hash__(self) -> int:\n        return hash(self.token)\n")])
+M("C06", "expression-node-value-memo", NODES, '        try:\n            return eval_expression(self.expression, self.resolver)\n        except SymbolNotDefined as e:\n            raise NodeError(f"{e} ({self}) is not defined in the current scope.", self.file_info) from e\n', '        if self._value is None:\n            try:\n                self._value = eval_expression(self.expression, self.resolver)\n            except SymbolNotDefined as e:\n                raise NodeError(f"{e} ({self}) is not defined in the current scope.", self.file_info) from e\n        return self._value\n', "C06.RM", edits=[(NODES, '        self.resolver = resolver\n        self.file_info = file_info\n\n    def get_value(self) -> int:\n', '        self.resolver = resolver\n        self.file_info = file_info\n        self._value: int | None = None\n\n    def get_value(self) -> int:\n'), (NODES, '        try:\n            return eval_expression(self.expression, self.resolver)\n        except SymbolNotDefined as e:\n            raise NodeError(f"{e} ({self}) is not defined in the current scope.", self.file_info) from e\n', '        if self._value is None:\n            try:\n                self._value = eval_expression(self.expression, self.resolver)\n            except SymbolNotDefined as e:\n                raise NodeError(f"{e} ({self}) is not defined in the current scope.", self.file_info) from e\n        return self._value\n')])
+M("C08", "expression-node-value-memo", NODES, '        try:\n            return eval_expression(self.expression, self.resolver)\n        except SymbolNotDefined as e:\n            raise NodeError(f"{e} ({self}) is not defined in the current scope.", self.file_info) from e\n', '        if self._value is None:\n            try:\n                self._value = eval_expression(self.expression, self.resolver)\n            except SymbolNotDefined as e:\n                raise NodeError(f"{e} ({self}) is not defined in the current scope.", self.file_info) from e\n        return self._value\n', "C08.RM", edits=[(NODES, '        self.resolver = resolver\n        self.file_info = file_info\n\n    def get_value(self) -> int:\n', '        self.resolver = resolver\n        self.file_info = file_info\n        self._value: int | None = None\n\n    def get_value(self) -> int:\n'), (NODES, '        try:\n            return eval_expression(self.expression, self.resolver)\n        except SymbolNotDefined as e:\n            raise NodeError(f"{e} ({self}) is not defined in the current scope.", self.file_info) from e\n', '        if self._value is None:\n            try:\n                self._value = eval_expression(self.expression, self.resolver)\n            except SymbolNotDefined as e:\n                raise NodeError(f"{e} ({self}) is not defined in the current scope.", self.file_info) from e\n        return self._value\n')])
+M("C01", "expression-node-value-memo", NODES, '        try:\n            return eval_expression(self.expression, self.resolver)\n        except SymbolNotDefined as e:\n            raise NodeError(f"{e} ({self}) is not defined in the current scope.", self.file_info) from e\n', '        if self._value is None:\n            try:\n                self._value = eval_expression(self.expression, self.resolver)\n            except SymbolNotDefined as e:\n                raise NodeError(f"{e} ({self}) is not defined in the current scope.", self.file_info) from e\n        return self._value\n', "C01.RM", edits=[(NODES, '        self.resolver = resolver\n        self.file_info = file_info\n\n    def get_value(self) -> int:\n', '        self.resolver = resolver\n        self.file_info = file_info\n        self._value: int | None = None\n\n    def get_value(self) -> int:\n'), (NODES, '        try:\n            return eval_expression(self.expression, self.resolver)\n        except SymbolNotDefined as e:\n            raise NodeError(f"{e} ({self}) is not defined in the current scope.", self.file_info) from e\n', '        if self._value is None:\n            try:\n                self._value = eval_expression(self.expression, self.resolver)\n            except SymbolNotDefined as e:\n                raise NodeError(f"{e} ({self}) is not defined in the current scope.", self.file_info) from e\n        return self._value\n')])
